@@ -1536,9 +1536,91 @@ fn side_observations(sh: &mut Shared, sql: &mut SqlEnv, rng: &mut ChaCha20Rng) {
     }
 }
 
+/// Mode `--c17-rebuild 1` (run by the C17 check): the expiry of a REBUILT transfer is the canonical
+/// rolling expiry of its NEW scheduled height. Real commits are re-opened just below the end of an
+/// expiry period, so that the freshly drawn delay carries the new schedule across the period
+/// boundary; every in-process rebuild must leave `expiry_height == expiry_height(scheduled_height)`,
+/// a schedule that does not go back, and an expiry that is not in the past.
+fn c17_rebuild_mode(args: &Args) {
+    use zcash_protocol::zip318::{EXPIRY_MODULUS, expiry_height};
+    let mut r = Reporter::new("C17", args);
+    let seed = args.shard_seed();
+    let mut rng = vh_common::rng(seed, 1717);
+    let mut k = 0u64;
+    while r.time_left() && k < args.get_u64("fixtures", 3) {
+        k += 1;
+        let (notes, interval) = fixtures::REAL_SHAPES[(args.shard as usize + k as usize) % fixtures::REAL_SHAPES.len()];
+        let (fx, _plan) = match fixtures::real_commit(seed.wrapping_mul(17).wrapping_add(k), notes, interval) {
+            Ok(x) => x,
+            Err(e) => {
+                r.inconclusive("c17-rebuild: real commit fixture failed");
+                r.note(e);
+                continue;
+            }
+        };
+        let real = fx.real.clone().expect("real fixture");
+        r.count("rebuild_fixtures", 1);
+        let transfers: Vec<u32> = fx.state.transactions().iter().filter(|t| matches!(t.kind(), MigrationTxKind::Transfer { .. })).map(|t| u32::from(t.id())).collect();
+        if transfers.is_empty() {
+            r.count("rebuild_fixtures_without_directly_funded_transfer", 1);
+            continue;
+        }
+        let max_expiry = fx.state.transactions().iter().map(|t| u32::from(t.expiry_height())).max().unwrap_or(0);
+        for j in 0..args.get_u64("rebuilds", 40) {
+            if !r.time_left() {
+                break;
+            }
+            let id = *transfers.choose(&mut rng).unwrap();
+            // re-open d blocks before the end of a period that lies past every stored expiry
+            let d = 1 + (j % 5) as u32;
+            let period = (max_expiry / EXPIRY_MODULUS) + 2 + (j % 3) as u32;
+            let tip = period * EXPIRY_MODULUS - d - 1;
+            let mut state = fx.state.clone();
+            let backend = RebuildBackend::new(&real, tip);
+            let mut trng = vh_common::rng(seed ^ j, 1718 + k);
+            let res = guard(|| rebuild_expired_transfer(&regtest_network(true), &backend, &spending_key(real.seed), &mut state, mid(id), &mut trng));
+            r.case(&("c17-rebuild", interval, d, j % 3), true);
+            match res {
+                Err(p) => r.violation(&format!("C17:rebuild:panic:{}", panic_class(&p)), p, json!({"tip": tip, "transfer": id})),
+                Ok(Err(e)) => {
+                    let cls: String = format!("{e:?}").chars().take_while(|c| c.is_alphanumeric()).collect();
+                    r.count(&format!("rebuild_refused_{cls}"), 1);
+                }
+                Ok(Ok(())) => {
+                    r.count("rebuilds_done", 1);
+                    let t = state.transactions().iter().find(|t| u32::from(t.id()) == id).expect("rebuilt tx").clone();
+                    let (sched, exp) = (t.scheduled_height(), t.expiry_height());
+                    if u32::from(sched) / EXPIRY_MODULUS != (tip + 1) / EXPIRY_MODULUS {
+                        r.count("rebuilds_scheduled_across_an_expiry_period_boundary", 1);
+                    }
+                    let replay = json!({"fixture_notes": notes, "interval": interval, "tip": tip, "transfer": id, "scheduled": u32::from(sched), "expiry": u32::from(exp)});
+                    if exp != expiry_height(sched) {
+                        r.violation(
+                            "C17:rebuild:expiry-not-canonical-for-new-schedule",
+                            format!("re-opened at tip {tip}: transfer {id} rescheduled to {sched:?} but expires at {exp:?}; the canonical rolling expiry of that height is {:?}", expiry_height(sched)),
+                            replay.clone(),
+                        );
+                    }
+                    if u32::from(sched) < tip + 1 {
+                        r.violation("C17:rebuild:scheduled-in-the-past", format!("tip {tip}, rescheduled to {sched:?}"), replay.clone());
+                    }
+                    if u32::from(exp) < u32::from(sched) {
+                        r.violation("C17:rebuild:expires-before-its-schedule", format!("scheduled {sched:?}, expiry {exp:?}"), replay);
+                    }
+                }
+            }
+        }
+    }
+    r.finish();
+}
+
 fn main() {
     vh_common::install_panic_hook();
     let args = Args::parse();
+    if args.extra.contains_key("c17-rebuild") {
+        c17_rebuild_mode(&args);
+        return;
+    }
     let r = Reporter::new("C18", &args);
     let seed = args.shard_seed();
     let mut rng = vh_common::rng(seed, 18);
